@@ -153,9 +153,6 @@ class Dependency(PackageSpecification):
         markers = convert_markers(marker)
 
         if "extra" in markers:
-            # If we have extras, the dependency is optional
-            self.deactivate()
-
             new_in_extras = []
             for or_ in markers["extra"]:
                 for op, extra in or_:
@@ -167,6 +164,9 @@ class Dependency(PackageSpecification):
                         for _extra in extra_values:
                             if not _extra.startswith("!="):
                                 new_in_extras.append(canonicalize_name(_extra))
+            if new_in_extras:
+                # If it is a member of extras, the dependency is optional
+                self.deactivate()
             self._in_extras = [*self._in_extras, *new_in_extras]
 
         # Recalculate python versions.
